@@ -57,6 +57,7 @@ MUTANTS = [
      "                    and ( requests_paths.setdefault( 'route_path', op.get( 'route_path' )) == op.get( 'route_path' ) or len( requests ) < 2 )\n"),
     ('C12-range-count', 'server/enip/device.py', "            cnt			= lst + 1 - elm", "            cnt			= lst + 1 - elm if lst != elm + 6 else lst - elm"),
     ('C13-harvest-no-context-check', 'server/enip/client.py', "            assert rpy_ctx == req_ctx and rpy.service == req.service | 0x80, \\", "            assert rpy.service == req.service | 0x80, \\"),
+    ('C13-poll-loop-keeps-gateway', 'server/enip/poll.py', "    with via: # ensure via.close_gateway invoked on any Exception", "    if via: # ensure via.close_gateway invoked on any Exception"),
     ('C13-proxy-keeps-gateway', 'server/enip/get_attribute.py', "            self.gateway	= None\n            self.identity	= self.identity_default",
      "            self.gateway	= None if not isinstance( exc, AssertionError ) else self.gateway\n            self.identity	= self.identity_default"),
     ('C14-sequence-not-echoed', 'server/enip/parser.py', "        result		       += UINT.produce( data.sequence )\n        result		       += octets_encode( data.request.input )",
